@@ -19,6 +19,14 @@
 //!    `ReconnectingStream::forward_to` into the real `UnboundedTx` and into a scripted `Tx` that starts
 //!    failing at the f-th send.
 //!
+//! Added by the hardening rounds: (a) `Mode::Market` - barter-data's own consumer composition, the real
+//! `init_market_stream(policy, subscriptions)`, driven through a scripted `Connector` / `MarketStream`
+//! (`ScriptVenue`): the configured policy must be the one that governs the waits, the termination predicate is
+//! `DataError::is_terminal`, the notice carries the connector's `ExchangeId`; (b) long runs - 70..1100 consecutive
+//! failures (also with the default policy (125,x2,60000) and one beyond 65 s), hundreds of connections, one
+//! connection of thousands of symbols; (c) merge / forward_to: a consumer that was told `Pending` must be woken
+//! when an item arrives or an input ends (otherwise the item never reaches anybody awaiting the stream).
+//!
 //! The oracle is written from the statement (see `judge`, `merge_exec`, `forward_exec`); where the statement
 //! is silent (is the terminal error itself passed on? how long after a dropped connection is the next attempt
 //! made? are items of the *other* merge input that were ready when one input ended still delivered? does
@@ -30,17 +38,31 @@ use crate::explore::{
     choice::{self, Chooser},
     env::{flag_waker, paused_rt},
 };
-use barter_data::streams::{
-    consumer::StreamKey,
-    reconnect::{
-        Event,
-        stream::{ReconnectingStream, ReconnectionBackoffPolicy, init_reconnecting_stream},
+use barter_data::{
+    Identifier, MarketStream, NoInitialSnapshots, SnapshotFetcher,
+    error::DataError,
+    event::MarketEvent,
+    exchange::{Connector, StreamSelector, subscription::ExchangeSub},
+    instrument::InstrumentData,
+    streams::{
+        consumer::{MarketStreamResult, StreamKey, init_market_stream},
+        reconnect::{
+            Event,
+            stream::{ReconnectingStream, ReconnectionBackoffPolicy, init_reconnecting_stream},
+        },
+    },
+    subscriber::{WebSocketSubscriber, validator::WebSocketSubValidator},
+    subscription::{
+        Subscription,
+        trade::{PublicTrade, PublicTrades},
     },
 };
-use barter_instrument::exchange::ExchangeId;
+use barter_instrument::{Side, exchange::ExchangeId, instrument::market_data::kind::MarketDataInstrumentKind};
 use barter_integration::{
-    Unrecoverable,
+    Unrecoverable, Validator,
     channel::{Tx, UnboundedTx, mpsc_unbounded},
+    error::SocketError,
+    protocol::websocket::WsMessage,
     stream::merge::merge,
 };
 use futures::{Stream, StreamExt};
@@ -60,6 +82,10 @@ use std::{
 use tokio::time::Instant;
 
 const ORIGIN: u32 = 77;
+/// ids: item / error number `pos` of connection (= attempt) `conn` is `conn * STRIDE + pos`; the ids pushed into
+/// the side channel of `MergedPlain` start at `SIDE_BASE`.
+const STRIDE: u32 = 10_000;
+const SIDE_BASE: u32 = 4_000_000_000;
 type Viol = (String, String);
 
 // =====================================================================================================
@@ -80,6 +106,11 @@ pub enum Mode {
     /// non-terminal item), `with_reconnect_backoff` + `with_reconnection_events`, merged by
     /// `barter_integration::stream::merge::merge` with a channel stream the harness feeds every 4 virtual ms
     MergedPlain,
+    /// barter-data's own consumer composition: the real `init_market_stream::<ScriptVenue, _, PublicTrades>(policy,
+    /// subscriptions)` over a scripted `MarketStream` (see `ScriptVenue`); items are `MarketEvent`s, errors are
+    /// `DataError`s (R = `DataError::Socket`, T = `DataError::InvalidSequence`), the termination predicate is
+    /// whatever the consumer configures, the notice's origin is the connector's `ExchangeId`
+    Market,
 }
 
 /// One execution of layer 1 (this is also the replay artefact).
@@ -121,7 +152,8 @@ pub enum Obs {
 }
 
 fn id_of(conn: usize, pos: usize) -> u32 {
-    (conn * 100 + pos) as u32
+    assert!(pos < STRIDE as usize && conn < (SIDE_BASE / STRIDE) as usize, "C12 id space");
+    conn as u32 * STRIDE + pos as u32
 }
 
 #[derive(Debug, Clone, PartialEq, Eq, Hash)]
@@ -192,34 +224,160 @@ impl Stream for Conn {
 
 type InitFut = Pin<Box<dyn Future<Output = Result<Conn, InitErr>> + Send>>;
 
+/// One scripted connection attempt: stamped when it STARTS (= when this function is called), takes `lat` virtual
+/// ms, then succeeds with the scripted connection or fails.
+fn attempt(script: &[Option<String>], lat: u64, pace: u64, sh: &Arc<Shared>) -> InitFut {
+    let k = {
+        let mut g = sh.log.lock().unwrap();
+        let start = sh.now();
+        g.calls.push(Call { start, end: None, ok: false });
+        g.calls.len() - 1
+    };
+    let entry: Option<String> = script.get(k).cloned().flatten();
+    let sh = sh.clone();
+    Box::pin(async move {
+        if lat > 0 {
+            tokio::time::sleep(Duration::from_millis(lat)).await;
+        }
+        {
+            let mut g = sh.log.lock().unwrap();
+            let now = sh.now();
+            g.calls[k].end = Some(now);
+            g.calls[k].ok = entry.is_some();
+        }
+        match entry {
+            Some(word) => Ok(Conn { conn: k, syms: word.into_bytes(), pos: 0, pace, sleep: None }),
+            None => Err(InitErr(k)),
+        }
+    })
+}
+
 fn make_init(case: &Case, sh: Arc<Shared>) -> impl Fn() -> InitFut + Send + 'static {
     let script = case.script.clone();
     let (lat, pace) = (case.lat, case.pace);
-    move || {
-        // stamped when the closure is CALLED (= when the attempt starts)
-        let k = {
-            let mut g = sh.log.lock().unwrap();
-            let start = sh.now();
-            g.calls.push(Call { start, end: None, ok: false });
-            g.calls.len() - 1
-        };
-        let entry: Option<String> = script.get(k).cloned().flatten();
-        let sh = sh.clone();
-        Box::pin(async move {
-            if lat > 0 {
-                tokio::time::sleep(Duration::from_millis(lat)).await;
-            }
-            {
-                let mut g = sh.log.lock().unwrap();
-                let now = sh.now();
-                g.calls[k].end = Some(now);
-                g.calls[k].ok = entry.is_some();
-            }
-            match entry {
-                Some(word) => Ok(Conn { conn: k, syms: word.into_bytes(), pos: 0, pace, sleep: None }),
-                None => Err(InitErr(k)),
-            }
+    move || attempt(&script, lat, pace, &sh)
+}
+
+// ---------------------------------------------------------------------------------------------------
+// Mode::Market: a scripted venue behind barter-data's real `init_market_stream`
+// ---------------------------------------------------------------------------------------------------
+
+/// A `Connector` whose `MarketStream` is the scripted connection. Nothing of the WebSocket machinery is used:
+/// `init_market_stream` only calls `<Exchange::Stream as MarketStream>::init(&subscriptions)`.
+#[derive(Clone, Default, Debug, Serialize, Deserialize)]
+pub struct ScriptVenue;
+#[derive(Clone, Debug)]
+pub struct VStr(&'static str);
+impl AsRef<str> for VStr {
+    fn as_ref(&self) -> &str {
+        self.0
+    }
+}
+#[derive(Debug, Deserialize)]
+pub struct VResp;
+impl Validator for VResp {
+    fn validate(self) -> Result<Self, SocketError> {
+        Ok(self)
+    }
+}
+impl Connector for ScriptVenue {
+    const ID: ExchangeId = ExchangeId::Other;
+    type Channel = VStr;
+    type Market = VStr;
+    type Subscriber = WebSocketSubscriber;
+    type SubValidator = WebSocketSubValidator;
+    type SubResponse = VResp;
+    fn url() -> Result<url::Url, SocketError> {
+        Err(SocketError::Subscribe("the scripted venue has no url".into()))
+    }
+    fn requests(_: Vec<ExchangeSub<VStr, VStr>>) -> Vec<WsMessage> {
+        vec![]
+    }
+}
+/// The subscribed "instrument" carries the script and the shared log to the static `MarketStream::init`.
+#[derive(Clone)]
+pub struct ScriptInst {
+    sh: Arc<Shared>,
+    script: Arc<Vec<Option<String>>>,
+    lat: u64,
+    pace: u64,
+    key: u32,
+    kind: MarketDataInstrumentKind,
+}
+impl std::fmt::Debug for ScriptInst {
+    fn fmt(&self, f: &mut std::fmt::Formatter<'_>) -> std::fmt::Result {
+        write!(f, "ScriptInst({})", self.key)
+    }
+}
+impl std::fmt::Display for ScriptInst {
+    fn fmt(&self, f: &mut std::fmt::Formatter<'_>) -> std::fmt::Result {
+        write!(f, "script-{}", self.key)
+    }
+}
+impl InstrumentData for ScriptInst {
+    type Key = u32;
+    fn key(&self) -> &u32 {
+        &self.key
+    }
+    fn kind(&self) -> &MarketDataInstrumentKind {
+        &self.kind
+    }
+}
+impl Identifier<VStr> for Subscription<ScriptVenue, ScriptInst, PublicTrades> {
+    fn id(&self) -> VStr {
+        VStr("script")
+    }
+}
+/// How the symbols R / T are rendered as `DataError`s.
+fn market_error(id: u32, t: bool) -> DataError {
+    if t {
+        DataError::InvalidSequence { prev_last_update_id: id as u64, first_update_id: 0 }
+    } else {
+        DataError::Socket(id.to_string())
+    }
+}
+pub struct MarketConn(Conn);
+impl Stream for MarketConn {
+    type Item = Result<MarketEvent<u32, PublicTrade>, DataError>;
+    fn poll_next(mut self: Pin<&mut Self>, cx: &mut Context<'_>) -> Poll<Option<Self::Item>> {
+        Pin::new(&mut self.0).poll_next(cx).map(|o| {
+            o.map(|r| match r {
+                Ok(id) => Ok(MarketEvent {
+                    time_exchange: chrono::DateTime::UNIX_EPOCH,
+                    time_received: chrono::DateTime::UNIX_EPOCH,
+                    exchange: ScriptVenue::ID,
+                    instrument: 0u32,
+                    kind: PublicTrade { id: id.to_string(), price: 1.0, amount: 1.0, side: Side::Buy },
+                }),
+                Err(e) => Err(market_error(e.id, e.terminal)),
+            })
         })
+    }
+}
+#[async_trait::async_trait]
+impl MarketStream<ScriptVenue, ScriptInst, PublicTrades> for MarketConn {
+    async fn init<SnapFetcher>(subscriptions: &[Subscription<ScriptVenue, ScriptInst, PublicTrades>]) -> Result<Self, DataError>
+    where
+        SnapFetcher: SnapshotFetcher<ScriptVenue, PublicTrades>,
+    {
+        let i = &subscriptions[0].instrument;
+        match attempt(&i.script, i.lat, i.pace, &i.sh).await {
+            Ok(conn) => Ok(MarketConn(conn)),
+            Err(_) => Err(DataError::Socket("scripted connection attempt failed".into())),
+        }
+    }
+}
+impl StreamSelector<ScriptInst, PublicTrades> for ScriptVenue {
+    type SnapFetcher = NoInitialSnapshots;
+    type Stream = MarketConn;
+}
+fn market_obs(e: MarketStreamResult<u32, PublicTrade>) -> Obs {
+    match e {
+        Event::Reconnecting(ex) => Obs::Notice(if ex == ScriptVenue::ID { ORIGIN } else { 0 }),
+        Event::Item(Ok(ev)) => Obs::Item(ev.kind.id.parse().unwrap_or(u32::MAX)),
+        Event::Item(Err(DataError::InvalidSequence { prev_last_update_id, .. })) => Obs::Err(prev_last_update_id as u32, true),
+        Event::Item(Err(DataError::Socket(s))) => Obs::Err(s.parse().unwrap_or(u32::MAX), false),
+        Event::Item(Err(_)) => Obs::Err(u32::MAX, false),
     }
 }
 
@@ -300,6 +458,19 @@ fn execute(case: &Case) -> Observation {
         let policy = ReconnectionBackoffPolicy::new(case.policy.0, case.policy.1, case.policy.2);
         let hz = horizon(case);
 
+        if case.mode == Mode::Market {
+            let inst = ScriptInst {
+                sh: sh.clone(),
+                script: Arc::new(case.script.clone()),
+                lat: case.lat,
+                pace: case.pace,
+                key: 0,
+                kind: MarketDataInstrumentKind::Spot,
+            };
+            let subs = vec![Subscription::new(ScriptVenue, inst, PublicTrades)];
+            let stream = init_market_stream(policy, subs).await.expect("scripts start with a successful attempt");
+            return drive(case, &sh, &fw, &waker, Subject::S(Box::pin(stream.map(market_obs))), None, None).await;
+        }
         // attempt 0 is awaited by init_reconnecting_stream itself (its latency elapses by auto-advance)
         let base = init_reconnecting_stream(make_init(case, sh.clone())).await;
         let base = base.expect("scripts start with a successful attempt");
@@ -329,7 +500,7 @@ fn execute(case: &Case) -> Observation {
         };
         let mut rx = None;
         let subject = match case.mode {
-            Mode::MergedPlain => unreachable!(),
+            Mode::MergedPlain | Mode::Market => unreachable!(),
             Mode::Pass => Subject::S(Box::pin(events.map(to_obs))),
             Mode::Handler => Subject::S(Box::pin(events.with_error_handler(handler).map(obs_of))),
             Mode::ForwardChan => {
@@ -456,7 +627,7 @@ async fn drive(
             match idle {
                 Idle::Woken => {}
                 Idle::SideTick => {
-                    let id = 9000 + o.side_pushed.len() as u32;
+                    let id = SIDE_BASE + o.side_pushed.len() as u32;
                     let tx = side_tx.as_ref().unwrap();
                     tx.tx.send(Event::Item(Ok(id))).expect("merged stream holds the side receiver");
                     o.side_pushed.push(id);
@@ -497,28 +668,27 @@ enum Tok {
 /// connection, in attempt order: its items and recoverable errors in order up to its end or first terminal
 /// error, then one notice. Failed attempts contribute nothing.
 fn expected(case: &Case, errors_in_output: bool) -> (Vec<Tok>, Vec<Tok>) {
-    let terminating = case.mode != Mode::MergedPlain; // MergedPlain configures no terminal predicate
     let mut out = Vec::new();
     let mut handled = Vec::new();
     for (c, a) in case.script.iter().enumerate() {
         let Some(word) = a else { continue };
         for (p, s) in word.bytes().enumerate() {
             let id = id_of(c, p);
+            // (the flag of `Obs::Err` is the symbol class: false = R, true = T)
             match s {
                 b'I' => out.push(Tok::Must(Obs::Item(id))),
-                b'R' => {
+                s if !sym_terminal(case, s) => {
                     if errors_in_output {
-                        out.push(Tok::Must(Obs::Err(id, false)))
+                        out.push(Tok::Must(Obs::Err(id, s == b'T')))
                     } else {
-                        handled.push(Tok::Must(Obs::Err(id, false)))
+                        handled.push(Tok::Must(Obs::Err(id, s == b'T')))
                     }
                 }
-                _ if !terminating => out.push(Tok::Must(Obs::Err(id, true))),
-                _ => {
+                s => {
                     if errors_in_output {
-                        out.push(Tok::May(Obs::Err(id, true)))
+                        out.push(Tok::May(Obs::Err(id, s == b'T')))
                     } else {
-                        handled.push(Tok::May(Obs::Err(id, true)))
+                        handled.push(Tok::May(Obs::Err(id, s == b'T')))
                     }
                     break;
                 }
@@ -529,11 +699,23 @@ fn expected(case: &Case, errors_in_output: bool) -> (Vec<Tok>, Vec<Tok>) {
     (out, handled)
 }
 
+/// Does the error symbol `s` (R or T) end the connection in this composition? `Pass`/`Handler`/`Forward*` configure
+/// the predicate "T is terminal"; `MergedPlain` configures none; in `Market` the consumer's predicate is
+/// `DataError::is_terminal` - the statement does not say which `DataError`s are terminal, so the real function is
+/// asked about the two errors the symbols are rendered as.
+fn sym_terminal(case: &Case, s: u8) -> bool {
+    match case.mode {
+        Mode::MergedPlain => false,
+        Mode::Market => market_error(0, s == b'T').is_terminal(),
+        _ => s == b'T',
+    }
+}
+
 /// Is (conn,pos) behind the first terminal error of its connection (or not part of the script at all)?
 fn after_terminal(case: &Case, id: u32) -> bool {
-    let (c, p) = ((id / 100) as usize, (id % 100) as usize);
+    let (c, p) = ((id / STRIDE) as usize, (id % STRIDE) as usize);
     match case.script.get(c).and_then(|a| a.as_ref()) {
-        Some(w) => case.mode != Mode::MergedPlain && w.bytes().take(p).any(|s| s == b'T'),
+        Some(w) => w.bytes().take(p).any(|s| s != b'I' && sym_terminal(case, s)),
         None => true,
     }
 }
@@ -600,7 +782,7 @@ fn match_seq(case: &Case, exp: &[Tok], obs: &[Obs], complete: bool) -> Option<(S
                         None => None,
                     };
                     if let Some(id) = cur {
-                        let (c, p) = ((id / 100) as usize, (id % 100) as usize);
+                        let (c, p) = ((id / STRIDE) as usize, (id % STRIDE) as usize);
                         if let Some(Some(w)) = case.script.get(c) {
                             rec |= w.bytes().take(p).any(|s| s == b'R');
                         }
@@ -656,7 +838,7 @@ fn wait_ms(policy: (u64, u8, u64), r: u32) -> u64 {
     w
 }
 
-fn judge(case: &Case, o: &Observation) -> Vec<Viol> {
+fn judge_generic(case: &Case, o: &Observation) -> Vec<Viol> {
     let mut v: Vec<Viol> = Vec::new();
     let forward = matches!(case.mode, Mode::ForwardChan | Mode::ForwardScript);
     let failed_send = o.sends.iter().position(|s| !s.2);
@@ -675,10 +857,10 @@ fn judge(case: &Case, o: &Observation) -> Vec<Viol> {
 
     // R-delivery: items once, in order, up to end / first terminal error; one notice per ended connection
     // before anything of the next; recoverable errors passed through; failed attempts deliver nothing.
-    let (exp, exp_handled) = expected(case, matches!(case.mode, Mode::Pass | Mode::MergedPlain));
+    let (exp, exp_handled) = expected(case, matches!(case.mode, Mode::Pass | Mode::MergedPlain | Mode::Market));
     let outs: Vec<Obs> = o.outputs.iter().map(|x| x.1.clone()).collect();
     let stopped_by_failed_send = case.mode == Mode::ForwardScript && failed_send.is_some();
-    let (side, outs): (Vec<Obs>, Vec<Obs>) = outs.into_iter().partition(|x| matches!(x, Obs::Item(i) if *i >= 9000));
+    let (side, outs): (Vec<Obs>, Vec<Obs>) = outs.into_iter().partition(|x| matches!(x, Obs::Item(i) if *i >= SIDE_BASE));
     // "everything must have arrived" is only judged for runs that got to the end of the script: a run that ended
     // by itself or ran into the horizon is reported by the never-ends / backoff / progress rules instead
     let complete = !stopped_by_failed_send && o.ended.is_none() && !o.horizon_hit;
@@ -702,7 +884,7 @@ fn judge(case: &Case, o: &Observation) -> Vec<Viol> {
     }
 
     // R-handler: recoverable errors are handed to the handler (exactly once, in order)
-    if !matches!(case.mode, Mode::Pass | Mode::MergedPlain) {
+    if !matches!(case.mode, Mode::Pass | Mode::MergedPlain | Mode::Market) {
         let h: Vec<Obs> = o.handled.iter().map(|(i, t)| Obs::Err(*i, *t)).collect();
         if let Some((cause, detail)) = match_seq(case, &exp_handled, &h, complete) {
             let cause = match cause.split('-').next().unwrap_or("") {
@@ -880,6 +1062,8 @@ struct Tally {
     attempts: AtomicU64,
     distinct: Distinct,
     samples: Samples,
+    /// signatures reported by executions of the generic compositions (every mode but `Market`)
+    generic_sigs: Mutex<std::collections::BTreeSet<String>>,
 }
 
 fn run_case(ctx: &Ctx, case: &Case, t: &Tally) {
@@ -889,17 +1073,39 @@ fn run_case(ctx: &Ctx, case: &Case, t: &Tally) {
     t.attempts.fetch_add(o.calls.len() as u64, Ordering::Relaxed);
     t.distinct.add(&o);
     for (sig, detail) in judge(case, &o) {
+        // `Market` executions run after the generic ones (see `run`): a rule already broken by the generic
+        // combinators is that defect again, not a defect of `init_market_stream`
+        if case.mode == Mode::Market {
+            if t.generic_sigs.lock().unwrap().contains(sig.trim_end_matches("/init_market_stream")) {
+                continue;
+            }
+        } else {
+            t.generic_sigs.lock().unwrap().insert(sig.clone());
+        }
         ctx.violate(sig, detail, serde_json::to_value(case).unwrap());
     }
+}
+
+/// `judge` + the composition as part of the signature where it is not the generic one: a rule broken only by
+/// barter-data's `init_market_stream` composition is a different defect from one in the generic combinators.
+fn judge(case: &Case, o: &Observation) -> Vec<Viol> {
+    let mut v = judge_generic(case, o);
+    if case.mode == Mode::Market {
+        for x in &mut v {
+            x.0.push_str("/init_market_stream");
+        }
+    }
+    v
 }
 
 // =====================================================================================================
 // Layer 2: merge — all interleavings of pushes, closes and polls
 // =====================================================================================================
 
-fn poll_one<S: Stream + ?Sized>(s: &mut Pin<Box<S>>) -> Poll<Option<S::Item>> {
-    let (flag, waker) = flag_waker();
-    let mut cx = Context::from_waker(&waker);
+/// Poll with the harness' waker, again while the subject wakes itself. When this returns `Pending` the flag is
+/// clear and the subject holds the waker: whatever makes an item (or the end) available afterwards has to set it.
+fn poll_one<S: Stream + ?Sized>(s: &mut Pin<Box<S>>, flag: &Arc<crate::explore::env::FlagWaker>, waker: &std::task::Waker) -> Poll<Option<S::Item>> {
+    let mut cx = Context::from_waker(waker);
     let mut spins = 0;
     loop {
         flag.0.store(false, Ordering::SeqCst);
@@ -930,7 +1136,9 @@ struct MergeInfo {
 ///  * every delivered item is the NEXT undelivered item of its input (order kept, nothing skipped, no duplicate);
 ///  * a poll may only stay pending when no input has ended and nothing pushed is undelivered (nothing withheld);
 ///  * the merged stream ends only when an input has ended and everything that input held was delivered;
-///  * once an input has ended the merged stream must end (not wait for the other input), and it stays ended.
+///  * once an input has ended the merged stream must end (not wait for the other input), and it stays ended;
+///  * a consumer that was told `Pending` is woken when an item is pushed / an input ends (otherwise the item is
+///    never delivered to anybody who awaits the merged stream).
 fn merge_exec(ch: &mut Chooser, variant: usize, depth: usize, out: &mut Vec<Viol>) -> (u64, MergeInfo) {
     let (ltx, lrx) = mpsc_unbounded::<u32>();
     let (rtx, rrx) = mpsc_unbounded::<u32>();
@@ -945,6 +1153,9 @@ fn merge_exec(ch: &mut Chooser, variant: usize, depth: usize, out: &mut Vec<Viol
     let mut pushed_at_close = [[0u32; 2]; 2]; // [closed side] -> pushed counts at that moment
     let mut info = MergeInfo::default();
     let mut trace: Vec<String> = Vec::new();
+    let (flag, waker) = flag_waker();
+    // the last poll returned Pending (the subject holds the harness' waker, the flag is clear)
+    let mut armed = false;
 
     let on_poll = |r: Poll<Option<u32>>,
                        tx: &[Option<UnboundedTx<u32>>; 2],
@@ -1012,7 +1223,8 @@ fn merge_exec(ch: &mut Chooser, variant: usize, depth: usize, out: &mut Vec<Viol
         let (a, side) = acts[ch.choose(acts.len())];
         match a {
             0 => {
-                let r = poll_one(&mut s);
+                let r = poll_one(&mut s, &flag, &waker);
+                armed = r.is_pending();
                 on_poll(r, &tx, &pushed, &mut delivered, &mut info, &mut trace, out);
             }
             1 => {
@@ -1020,17 +1232,25 @@ fn merge_exec(ch: &mut Chooser, variant: usize, depth: usize, out: &mut Vec<Viol
                 let _ = tx[side].as_ref().unwrap().send(id); // fails only after the merged stream has ended and dropped its inputs
                 pushed[side] += 1;
                 trace.push(format!("push{}", ["L", "R"][side]));
+                if armed && !flag.0.load(Ordering::SeqCst) {
+                    out.push(("C12/merge/pending-consumer-not-woken/item-pushed".into(), format!("steps={trace:?}")));
+                    armed = false;
+                }
             }
             _ => {
                 tx[side] = None;
                 pushed_at_close[side] = pushed;
                 trace.push(format!("close{}", ["L", "R"][side]));
+                if armed && !flag.0.load(Ordering::SeqCst) {
+                    out.push(("C12/merge/pending-consumer-not-woken/input-ended".into(), format!("steps={trace:?}")));
+                    armed = false;
+                }
             }
         }
     }
     // final drain: poll until the stream stops yielding items
     for _ in 0..(pushed[0] + pushed[1] + 2) {
-        let r = poll_one(&mut s);
+        let r = poll_one(&mut s, &flag, &waker);
         let stop = !matches!(r, Poll::Ready(Some(_)));
         on_poll(r, &tx, &pushed, &mut delivered, &mut info, &mut trace, out);
         if stop {
@@ -1054,7 +1274,7 @@ fn merge_exec(ch: &mut Chooser, variant: usize, depth: usize, out: &mut Vec<Viol
             }
         }
         for _ in 0..2 {
-            let r = poll_one(&mut s);
+            let r = poll_one(&mut s, &flag, &waker);
             on_poll(r, &tx, &pushed, &mut delivered, &mut info, &mut trace, out);
         }
     }
@@ -1069,7 +1289,8 @@ fn merge_exec(ch: &mut Chooser, variant: usize, depth: usize, out: &mut Vec<Viol
 /// first choice is the number of the first failing send.
 /// Oracle ("forward_to loses nothing before the first failed send"): after every quiescent poll everything
 /// pushed so far (up to the first failed send) has arrived, in order, exactly once; the send that fails carries
-/// the next item; the future completes only when the source ended or a send failed.
+/// the next item; the future completes only when the source ended or a send failed; a forwarder that returned
+/// `Pending` is woken when the next item is pushed.
 fn forward_exec(ch: &mut Chooser, variant: usize, depth: usize, out: &mut Vec<Viol>) -> (u64, bool) {
     let (src_tx, src_rx) = mpsc_unbounded::<u32>();
     let sh = Arc::new(Shared { t0: Instant::now(), log: Mutex::new(Log::default()) });
@@ -1091,6 +1312,8 @@ fn forward_exec(ch: &mut Chooser, variant: usize, depth: usize, out: &mut Vec<Vi
     let mut stopped_after_failure = false;
     let mut trace: Vec<String> = Vec::new();
     let (flag, waker) = flag_waker();
+    // the last poll returned Pending (the future holds the harness' waker, the flag is clear)
+    let mut armed = false;
 
     for _ in 0..depth {
         let mut acts = vec![0u8];
@@ -1123,6 +1346,7 @@ fn forward_exec(ch: &mut Chooser, variant: usize, depth: usize, out: &mut Vec<Vi
                     }
                 };
                 trace.push(format!("poll->{}", if r { "done" } else { "pending" }));
+                armed = !r;
                 let mut bad = |cause: &str, what: String| {
                     out.push((format!("C12/forward-to/{cause}"), format!("{what}; steps={trace:?}")));
                 };
@@ -1171,6 +1395,12 @@ fn forward_exec(ch: &mut Chooser, variant: usize, depth: usize, out: &mut Vec<Vi
                 let _ = src.as_ref().unwrap().send(pushed);
                 pushed += 1;
                 trace.push("push".into());
+                // a pending forwarder is woken by a new item (demanded only while no send can have failed yet)
+                let no_failure_yet = if variant == 0 { rx.is_some() } else { (pushed as usize) <= fail_at };
+                if armed && !done && no_failure_yet && !flag.0.load(Ordering::SeqCst) {
+                    out.push(("C12/forward-to/pending-forwarder-not-woken/item-pushed".into(), format!("steps={trace:?}")));
+                    armed = false;
+                }
             }
             2 => {
                 src = None;
@@ -1216,7 +1446,6 @@ const POLICIES: [(u64, u8, u64); 4] = [(1, 2, 4), (2, 3, 5), (3, 1, 3), (5, 2, 5
 
 pub fn run(ctx: &Ctx) -> Outcome {
     let thorough = ctx.tier == crate::core::Tier::Thorough;
-    let extra = 5usize;
 
     // ---------------- layer 1 ----------------
     // The enumerated script space is the union of the blocks; a script that already fits an earlier block is
@@ -1226,6 +1455,7 @@ pub fn run(ctx: &Ctx) -> Outcome {
     let t3 = vec![(0u64, 0u64), (7, 0), (0, 3)];
     let t5 = vec![(0u64, 0u64), (7, 0), (0, 3), (7, 3), (2, 1)];
     let m4 = vec![Mode::Pass, Mode::Handler, Mode::ForwardChan, Mode::MergedPlain];
+    let extra = 5usize;
     let blk = |n_max, l_max, policies: &[(u64, u8, u64)], timings: &[(u64, u64)], modes: &[Mode]| Block {
         n_max,
         l_max,
@@ -1255,6 +1485,7 @@ pub fn run(ctx: &Ctx) -> Outcome {
         scripts: AtomicU64::new(0),
         distinct: Distinct::default(),
         samples: Samples::new(6),
+        generic_sigs: Mutex::new(Default::default()),
     };
     let mk = |script: &Vec<Option<String>>, policy, (lat, pace), mode, fail_at| Case {
         layer: "reconnect".into(),
@@ -1313,6 +1544,84 @@ pub fn run(ctx: &Ctx) -> Outcome {
             "executions": tally.evals.load(Ordering::Relaxed) - before.1,
         }));
     }
+    // barter-data's own consumer composition (`init_market_stream`) over the scripted venue: its own (smaller) block
+    let mb = if thorough { blk(4, 2, &p4, &t3, &[Mode::Market]) } else { blk(3, 2, &p4, &t3, &[Mode::Market]) };
+    {
+        let ws = words(mb.l_max);
+        let before = (tally.scripts.load(Ordering::Relaxed), tally.evals.load(Ordering::Relaxed));
+        for n in 1..=mb.n_max {
+            (0..script_count(n, ws.len())).into_par_iter().for_each(|i| {
+                let script = script_at(n, &ws, i);
+                tally.scripts.fetch_add(1, Ordering::Relaxed);
+                for policy in &mb.policies {
+                    for timing in &mb.timings {
+                        run_case(ctx, &mk(&script, *policy, *timing, Mode::Market, None), &tally);
+                    }
+                }
+            });
+        }
+        block_report.push(json!({
+            "max_attempts": mb.n_max, "max_word_len": mb.l_max,
+            "policies_(initial_ms,multiplier,max_ms)": mb.policies, "timings_(init_latency_ms,pace_ms)": mb.timings, "modes": mb.modes,
+            "scripts_(again,_for_this_mode)": tally.scripts.load(Ordering::Relaxed) - before.0,
+            "executions": tally.evals.load(Ordering::Relaxed) - before.1,
+        }));
+    }
+
+    // Long runs (length-dependent behaviour: counters, exponent arithmetic, attempt limits, buffers): long failure
+    // runs (the wait must stay at the maximum, the stream must not give up), many connections, one long connection.
+    let long_before = tally.evals.load(Ordering::Relaxed);
+    let long_cases: Vec<Case> = {
+        let mut v = Vec::new();
+        let all5 = [Mode::Pass, Mode::Handler, Mode::ForwardChan, Mode::MergedPlain, Mode::Market];
+        let big: [(u64, u8, u64); 2] = [(125, 2, 60_000), (40_000, 2, 100_000)];
+        for k in if thorough { vec![70usize, 300, 1100] } else { vec![70, 300] } {
+            let mut script = vec![Some("I".to_string())];
+            script.extend(std::iter::repeat(None).take(k));
+            script.push(Some("I".to_string()));
+            for policy in p6.iter().chain(&big) {
+                for timing in [(0u64, 0u64), (7, 0)] {
+                    for mode in all5 {
+                        // (the side channel of MergedPlain ticks every 4 virtual ms: small policies only)
+                        if mode == Mode::MergedPlain && policy.2 > 10 {
+                            continue;
+                        }
+                        v.push(mk(&script, *policy, timing, mode, None));
+                    }
+                }
+            }
+        }
+        // many connections with failures in between
+        let many: Vec<Option<String>> = (0..if thorough { 1200 } else { 300 })
+            .map(|i| match i % 8 {
+                0 | 7 => Some("I"),
+                1 => Some(""),
+                3 => Some("RI"),
+                4 => Some("IT"),
+                _ => None,
+            })
+            .map(|w| w.map(str::to_string))
+            .chain([Some("I".to_string())])
+            .collect();
+        // one long connection: an item stream with a recoverable error every 97 symbols, with and without a
+        // terminal error (followed by symbols that must not be delivered) at the end
+        let long_word: String = (0..if thorough { 6000 } else { 1500 }).map(|p| if p % 97 == 96 { 'R' } else { 'I' }).collect();
+        for script in [many, vec![Some(long_word.clone()), Some("I".to_string())], vec![Some(format!("{long_word}TIRI")), Some("I".to_string())]] {
+            for policy in &p4[..2] {
+                for timing in [(0u64, 0u64), (2, 1)] {
+                    for mode in all5 {
+                        v.push(mk(&script, *policy, timing, mode, None));
+                    }
+                }
+            }
+        }
+        v
+    };
+    // (generic compositions first, then `Market`: see `run_case`)
+    long_cases.par_iter().filter(|c| c.mode != Mode::Market).for_each(|c| run_case(ctx, c, &tally));
+    long_cases.par_iter().filter(|c| c.mode == Mode::Market).for_each(|c| run_case(ctx, c, &tally));
+    let long_execs = tally.evals.load(Ordering::Relaxed) - long_before;
+
     for (script, policy, timing, mode) in [
         (vec![Some("IR".to_string()), None, None, Some("ITI".to_string())], POLICIES[0], (7u64, 0u64), Mode::Pass),
         (vec![Some("RI".to_string()), Some("".to_string()), None, Some("T".to_string())], POLICIES[1], (0, 3), Mode::Handler),
@@ -1394,11 +1703,15 @@ pub fn run(ctx: &Ctx) -> Outcome {
             "evaluations": reconnect_all + merge_execs + fwd_execs,
             "distinct_nontrivial": distinct,
             "exhaustive": true,
-            "rule": "E-ENV: every connection script within the bounds x backoff policy x timing x observation mode executed on the real init_reconnecting_stream/with_reconnect_backoff/with_termination_on_error/with_reconnection_events(/with_error_handler/forward_to) composition under a paused tokio clock (subject polled by hand with the harness' waker; the virtual clock jumps from timer deadline to timer deadline; every output and init call stamped), compared with the trace the statement allows; all interleavings of push/close/poll for merge and of push/close/poll/drop-receiver for forward_to",
+            "rule": "E-ENV: every connection script within the bounds x backoff policy x timing x observation mode executed on the real init_reconnecting_stream/with_reconnect_backoff/with_termination_on_error/with_reconnection_events(/with_error_handler/forward_to) composition - and on barter-data's own init_market_stream over a scripted Connector/MarketStream - under a paused tokio clock (subject polled by hand with the harness' waker; the virtual clock jumps from timer deadline to timer deadline; every output and init call stamped), compared with the trace the statement allows; all interleavings of push/close/poll for merge and of push/close/poll/drop-receiver for forward_to",
             "reconnect": {
                 "scripts": tally.scripts.load(Ordering::Relaxed),
                 "blocks": block_report,
                 "failing_attempts_observed_after_script": extra,
+                "long_runs": {
+                    "executions": long_execs,
+                    "what": "[ok, k failures, ok] for k in 70, 300 (thorough: + 1100) x 8 policies incl. (125,2,60000) and (40000,2,100000) x init latency 0/7 x 5 modes; 300 (1200) connections with failures in between; one connection of 1500 (6000) symbols with and without a terminal error - x 2 policies x 2 timings x 5 modes",
+                },
                 "executions_main": reconnect_main,
                 "executions_forward_failing_tx": reconnect_all - reconnect_main,
                 "forward_failing_tx_bounds_(max_attempts,max_word_len)": [fs_bound.0, fs_bound.1],
@@ -1424,7 +1737,8 @@ pub fn run(ctx: &Ctx) -> Outcome {
             "backoff policies have 1 <= initial <= max and multiplier >= 1; waits are compared exactly in virtual milliseconds".into(),
             "connections are finite words over {item, recoverable error, terminal error} followed by end-of-stream; all attempts after the script fail".into(),
             "the statement is silent on (a) whether the terminal error itself is passed on, (b) the delay between a dropped connection and the next attempt, (c) ready items of the other merge input when one input ends, (d) whether forward_to stops after a failed send: all accepted, (c) and (d) counted as informational".into(),
-            "merge / forward_to inputs are barter_integration mpsc_unbounded channels; a 'poll' is repeated while the subject wakes itself".into(),
+            "merge / forward_to inputs are barter_integration mpsc_unbounded channels; a 'poll' is repeated while the subject wakes itself; wake-ups are synchronous with the push / close that causes them (no runtime is involved in layers 2 and 3)".into(),
+            "Market mode: which DataErrors are terminal is not part of the statement - the real DataError::is_terminal is asked about the two errors the script symbols are rendered as (Socket, InvalidSequence); a rule broken in Market mode only is reported with the suffix /init_market_stream".into(),
         ],
     }
 }
